@@ -301,6 +301,10 @@ fn write_entry(
     }).collect::<WriteResult<Vec<_>>>()?;
 
     let mut texture_offset = 0;
+    if entry.texture_data.is_some() && entry.path.starts_with("@") {
+        // (the reader insists on this: names beginning with '@' are render targets and never have a THTX)
+        return Err(emitter.emit(error!("'{}' cannot have image data: a path beginning with '@' names a texture created at runtime; use 'has_data: false'", entry.path)));
+    }
     if let Some(texture_data) = &entry.texture_data {
         let texture_metadata = entry.texture_metadata.as_ref().expect("always Some if texture_data is");
         texture_offset = w.pos()? - entry_pos;
